@@ -10,9 +10,13 @@ All theorems are for **all** files (`List Line`, any text) and **all** diagnosti
 length) of the modelled fragment; hypotheses are explicit decidable predicates:
 
 * `ChangeWF ls dels`   — the replacement names at least one line, only existing lines, none twice;
-* `NoExtraSep lines`   — no character at which `splitlines()` and `readlines()` disagree (¬ `D16_splitlinesMismatch`);
-* `InRange lines raw`  — every diagnostic points into the file; `CleanCodes raw` — code names are identifiers;
-* `AddIgnoresOK st`    — all of the above, and ¬ `D16_twoCodesOneLine`, ¬ `D16_ignoreAboveLineOne`.
+* `InRange lines raw`  — every diagnostic points into the file;
+* `AddIgnoresOK st`    — `InRange`, and ¬ `D16_twoCodesOneLine`, ¬ `D16_ignoreAboveLineOne`.
+
+Repaired since the first version of this file (the model follows /repo after ba62f49, d5dca9e, 0cba813): the
+former classes `splitlinesMismatch` (its hypothesis `NoExtraSep` is gone from every theorem) and `stmtRange`
+(narrowed to `D16_stmtRangeOverrun`); the behaviour before the repairs is kept in `oldAddIgnoresRound`,
+`oldLineRange`, `oldPrevLineOf` and shown by the `old_…` regression witnesses.
 
 The stream of diagnostics is an input (assumption A1, see Core/Fixes.lean).  "The tree is unchanged" is
 stated twice: as "the non-comment lines are unchanged" (`add_ignores_preserves_code`), and on the line lexer of
@@ -62,8 +66,7 @@ theorem apply_change_duplicate_witness : ¬ apply_change_lines_full := by
 /-- **add_ignores_inserts_one_comment.** When the run reports something, the round changes the file by
 exactly one inserted line — `# static analysis: ignore[code]` for the *first* reported diagnostic, indented
 like its line, directly above it — and renumbers the stream; when it reports nothing, nothing changes. -/
-theorem add_ignores_inserts_one_comment (st : St) (hsep : NoExtraSep st.lines = true)
-    (hr : InRange st.lines st.raw = true) :
+theorem add_ignores_inserts_one_comment (st : St) (hr : InRange st.lines st.raw = true) :
     (st.diags = [] ∧ addIgnoresRound st = st) ∨
     ∃ d ds, st.diags = d :: ds ∧
       addIgnoresRound st =
@@ -74,27 +77,26 @@ theorem add_ignores_inserts_one_comment (st : St) (hsep : NoExtraSep st.lines = 
     intro d hd
     have := List.all_eq_true.mp hr d hd
     simpa using this
-  rw [diags_eq st hsep]
+  rw [diags_eq st]
   cases hv : visible st.lines st.raw with
-  | nil => exact Or.inl ⟨rfl, round_fix st hsep hv⟩
-  | cons d ds => exact Or.inr ⟨d, ds, rfl, round_eq st hsep hrange d ds hv⟩
+  | nil => exact Or.inl ⟨rfl, round_fix st hv⟩
+  | cons d ds => exact Or.inr ⟨d, ds, rfl, round_eq st hrange d ds hv⟩
 
 /-- The same, against the executable spec of a round. -/
-theorem add_ignores_round_eq_spec_partial (st : St) (hsep : NoExtraSep st.lines = true)
-    (hr : InRange st.lines st.raw = true) : addIgnoresRound st = specRound st := by
-  rcases add_ignores_inserts_one_comment st hsep hr with ⟨h1, h2⟩ | ⟨d, ds, h1, h2⟩
-  · rw [diags_eq st hsep] at h1
+theorem add_ignores_round_eq_spec (st : St) (hr : InRange st.lines st.raw = true) :
+    addIgnoresRound st = specRound st := by
+  rcases add_ignores_inserts_one_comment st hr with ⟨h1, h2⟩ | ⟨d, ds, h1, h2⟩
+  · rw [diags_eq st] at h1
     rw [h2]; unfold specRound; rw [h1]
-  · rw [diags_eq st hsep] at h1
+  · rw [diags_eq st] at h1
     rw [h2]; unfold specRound; rw [h1]
 
-/-- **add_ignores_preserves_code (one round).** The non-comment lines of the file are the same before and
-after the round, in the same order (so, comments not being tokens, the token stream and the syntax tree are
-the same). -/
-theorem add_ignores_preserves_code (st : St) (hsep : NoExtraSep st.lines = true)
-    (hr : InRange st.lines st.raw = true) :
+/-- **add_ignores_preserves_code (one round, full strength).** The non-comment lines of the file are the
+same before and after the round, in the same order (so, comments not being tokens, the token stream and the
+syntax tree are the same) — for every file, whatever characters it contains. -/
+theorem add_ignores_preserves_code (st : St) (hr : InRange st.lines st.raw = true) :
     codeLines (addIgnoresRound st).lines = codeLines st.lines := by
-  apply codeLines_round hsep
+  apply codeLines_round
   intro d hd
   have := List.all_eq_true.mp hr d hd
   simpa using this
@@ -104,23 +106,28 @@ theorem add_ignores_preserves_code_iterate (n : Nat) (st : St) (hok : AddIgnores
     codeLines (iterate n st).lines = codeLines st.lines :=
   codeLines_iterate n st (inv_of_ok hok)
 
-/-- Full statement (no hypothesis on the characters of the file): false, see the witness. -/
-def add_ignores_preserves_code_full : Prop :=
-  ∀ st : St, InRange st.lines st.raw = true → codeLines (addIgnoresRound st).lines = codeLines st.lines
-
-/-- `s = 'a<FF>b'` / `undefined_x`: the AST says line 2, `_lines()` (splitlines) has three lines and hands out
-`b'` as "line 2"; the round overwrites the real line 2 with the comment and `b'`. -/
+/-- `s = 'a<FF>b'` / `undefined_x`: the AST says line 2; before ba62f49 `_lines()` (`splitlines`) had three
+lines and handed out `b'` as "line 2", so the round overwrote the real line 2 with the comment and `b'`. -/
 def ffState : St :=
   { lines := ["s = 'a\x0cb'".toList, "undefined_x".toList], raw := [{ code := "undefined_name", line := 2 }] }
 
-/-- **Exception class `splitlinesMismatch`.** The statement `undefined_x` is gone, a line `b'` appeared. -/
-theorem splitlinesMismatch_witness : ¬ add_ignores_preserves_code_full := by
+/-- The statement for the round as it was before the repair. -/
+def old_add_ignores_preserves_code_full : Prop :=
+  ∀ st : St, InRange st.lines st.raw = true → codeLines (oldAddIgnoresRound st).lines = codeLines st.lines
+
+/-- **Regression witness for the repaired class `splitlinesMismatch`.** With the old line table the
+statement `undefined_x` is lost and a line `b'` appears; with the repaired one the file keeps its code. -/
+theorem old_splitlinesMismatch_witness : ¬ old_add_ignores_preserves_code_full := by
   intro h
   have := h ffState (by decide)
   revert this
   decide
 
-example : D16_splitlinesMismatch ffState.lines = true := by decide
+theorem splitlinesMismatch_repaired_on_witness :
+    (addIgnoresRound ffState).lines =
+      ["s = 'a\x0cb'".toList, "# static analysis: ignore[undefined_name]".toList, "undefined_x".toList] := by decide
+
+example : oldD16_splitlinesMismatch ffState.lines = true := by decide
 
 /-! ## Comments and tokens (assumption A2 made precise on the line lexer) -/
 
@@ -137,17 +144,17 @@ theorem insert_comment_preserves_tokens_partial (lines : List Line) (p : Nat) (c
     lexTrace (.code 0) (insertAt lines (p - 1) c) = lexTrace (.code 0) lines :=
   lexTrace_insert lines p c hc (safeStart_of_not_D hS hB)
 
-/-- **add_ignores_preserves_tokens_partial.** Outside `D16_insideString`, `D16_afterBackslash` (and
-`D16_splitlinesMismatch`) an `--add-ignores` round leaves the token trace of the file unchanged. -/
-theorem add_ignores_preserves_tokens_partial (st : St) (hsep : NoExtraSep st.lines = true)
+/-- **add_ignores_preserves_tokens_partial.** Outside `D16_insideString` and `D16_afterBackslash` an
+`--add-ignores` round leaves the token trace of the file unchanged. -/
+theorem add_ignores_preserves_tokens_partial (st : St)
     (hr : InRange st.lines st.raw = true) (hS : D16_insideString st.lines st.raw = false)
     (hB : D16_afterBackslash st.lines st.raw = false) :
     lexTrace (.code 0) (addIgnoresRound st).lines = lexTrace (.code 0) st.lines := by
-  rcases add_ignores_inserts_one_comment st hsep hr with ⟨_, h2⟩ | ⟨d, ds, h1, h2⟩
+  rcases add_ignores_inserts_one_comment st hr with ⟨_, h2⟩ | ⟨d, ds, h1, h2⟩
   · rw [h2]
   · rw [h2]
     have hd : d ∈ st.raw := by
-      rw [diags_eq st hsep] at h1
+      rw [diags_eq st] at h1
       exact (mem_visible.mp (by rw [h1]; simp)).1
     have s1 : insideStringAt st.lines d.line = false := by
       have := List.any_eq_false.mp hS d hd
@@ -240,8 +247,7 @@ example : D16_ignoreAboveLineOne lineOneState.lines lineOneState.raw = true := b
 
 /-- Full statement: the loop reaches a run without diagnostics after at most one round per diagnostic. -/
 def add_ignores_terminates_full : Prop :=
-  ∀ st : St, NoExtraSep st.lines = true → CleanCodes st.raw = true → InRange st.lines st.raw = true →
-    ∃ n, n ≤ st.raw.length ∧ (iterate n st).diags = []
+  ∀ st : St, InRange st.lines st.raw = true → ∃ n, n ≤ st.raw.length ∧ (iterate n st).diags = []
 
 /-- **add_ignores_terminates_partial.** If no line carries diagnostics of two different codes and no
 diagnostic sits directly under the leading comment block (in particular not on line 1), then after at most
@@ -260,9 +266,9 @@ theorem add_ignores_progress (st : St) (hok : AddIgnoresOK st = true) (d : Diag)
     AddIgnoresOK (addIgnoresRound st) = true ∧
       (addIgnoresRound st).diags = ((d :: ds).filter fun e => !decide (e.line = d.line)).map (shiftDiag d.line) := by
   have hinv := inv_of_ok hok
-  rw [diags_eq st hinv.sep] at hv
+  rw [diags_eq st] at hv
   refine ⟨ok_of_inv (inv_round hinv), ?_⟩
-  rw [diags_eq _ (inv_round hinv).sep]
+  rw [diags_eq _]
   exact visible_after_round hinv d ds hv
 
 /-- The two-codes witness: `f('s', undefined_x)` reports `undefined_name` and `incompatible_call` on line 4. -/
@@ -274,7 +280,7 @@ def twoCodesState : St :=
 /-- **Exception class `twoCodesOneLine`.** The full statement is false: … -/
 theorem twoCodesOneLine_witness : ¬ add_ignores_terminates_full := by
   intro h
-  obtain ⟨n, hn, hd⟩ := h twoCodesState (by decide) (by decide) (by decide)
+  obtain ⟨n, hn, hd⟩ := h twoCodesState (by decide)
   have hn' : n ≤ 2 := hn
   match n, hn' with
   | 0, _ => revert hd; decide
@@ -315,36 +321,83 @@ def line_range_exact_full : Prop :=
   ∀ (lines : List Line) (first stmtEnd : Nat), 1 ≤ first → first ≤ stmtEnd → stmtEnd ≤ lines.length →
     lineRange lines first stmtEnd = specRange first stmtEnd
 
-/-- **line_range_exact_partial.** Outside `D16_stmtRange` the range is exactly `lineno … end_lineno`. -/
+/-- **line_range_covers_statement (full strength, since d5dca9e).** The range always contains every line
+of the statement. -/
+theorem line_range_covers_statement (lines : List Line) (first stmtEnd : Nat) (h2 : first ≤ stmtEnd) :
+    ∀ k ∈ specRange first stmtEnd, k ∈ lineRange lines first stmtEnd :=
+  lineRange_covers lines first stmtEnd h2
+
+/-- **line_range_exact_partial.** Outside `D16_stmtRangeOverrun` the range is exactly `lineno … end_lineno`. -/
 theorem line_range_exact_partial (lines : List Line) (first stmtEnd : Nat) (h1 : 1 ≤ first)
-    (h2 : first ≤ stmtEnd) (h3 : stmtEnd ≤ lines.length) (hD : D16_stmtRange lines first stmtEnd = false) :
+    (h2 : first ≤ stmtEnd) (h3 : stmtEnd ≤ lines.length) (hD : D16_stmtRangeOverrun lines first stmtEnd = false) :
     lineRange lines first stmtEnd = specRange first stmtEnd :=
   lineRange_exact lines first stmtEnd h1 h2 h3 hD
 
-/-- The class is exact: inside it the range is always wrong. -/
+/-- The class is exact: inside it the range is always too long. -/
 theorem line_range_wrong_in_class (lines : List Line) (first stmtEnd : Nat) (h1 : 1 ≤ first)
-    (h2 : first ≤ stmtEnd) (h3 : stmtEnd ≤ lines.length) (hD : D16_stmtRange lines first stmtEnd = true) :
+    (h2 : first ≤ stmtEnd) (h3 : stmtEnd ≤ lines.length) (hD : D16_stmtRangeOverrun lines first stmtEnd = true) :
     lineRange lines first stmtEnd ≠ specRange first stmtEnd :=
   lineRange_wrong lines first stmtEnd h1 h2 h3 hD
 
-/-- **Exception class `stmtRange`.** `x = '''a` / `b'''`: the second line of the assignment is not indented
-deeper than the first, so only the first line is taken for the statement (and deleted by `remove_node`). -/
-theorem stmtRange_witness : ¬ line_range_exact_full := by
+/-- The file of the `stmtRangeOverrun` witness: an unused one-line triple-quoted assignment followed by a
+string statement that opens with a lone triple quote. -/
+def overrunLines : List Line :=
+  ["def f():".toList, "    x = \"\"\"a\"\"\"".toList, "    \"\"\"".toList, "    note".toList,
+   "    \"\"\"".toList, "    return 1".toList]
+
+/-- **Exception class `stmtRangeOverrun`.** The heuristic takes the lone triple-quote line after `x`'s
+assignment for the end of `x`'s literal, so `remove_node` deletes the opening quotes of the next statement
+as well (lines 2 and 3 instead of line 2). -/
+theorem stmtRangeOverrun_witness : ¬ line_range_exact_full := by
   intro h
-  have := h ["def f():".toList, "    x = '''a".toList, "b'''".toList, "    return 1".toList] 2 3
-    (by decide) (by decide) (by decide)
+  have := h overrunLines 2 2 (by decide) (by decide) (by decide)
   revert this
   decide
 
-/-- Removing an unused `x = …` whose range is right leaves the other lines alone (composition of
+example : D16_stmtRangeOverrun overrunLines 2 2 = true ∧ lineRange overrunLines 2 2 = [2, 3] := by decide
+
+/-- The file of the old `stmtRange` witness: the literal's last line is not indented deeper than the first. -/
+def oldRangeLines : List Line :=
+  ["def f():".toList, "    x = '''a".toList, "b'''".toList, "    return 1".toList]
+
+/-- **Regression witness for the repaired part of `stmtRange`.** The function as it was before d5dca9e
+returned only line 2 for the two-line assignment; the repaired one returns 2, 3, and the file is outside the
+remaining class. -/
+theorem old_stmtRange_witness :
+    oldLineRange oldRangeLines 2 3 = [2] ∧ oldD16_stmtRange oldRangeLines 2 3 = true ∧
+    lineRange oldRangeLines 2 3 = [2, 3] ∧ D16_stmtRangeOverrun oldRangeLines 2 3 = false := by
+  decide
+
+/-- Removing or rewriting a statement whose range is right leaves the other lines alone (composition of
 `line_range_exact_partial` and `apply_change_lines`). -/
 theorem remove_statement_exact_partial (lines : List Line) (first stmtEnd : Nat) (h1 : 1 ≤ first)
-    (h2 : first ≤ stmtEnd) (h3 : stmtEnd ≤ lines.length) (hD : D16_stmtRange lines first stmtEnd = false)
+    (h2 : first ≤ stmtEnd) (h3 : stmtEnd ≤ lines.length) (hD : D16_stmtRangeOverrun lines first stmtEnd = false)
     (adds : List Line) :
     applyChanges [⟨lineRange lines first stmtEnd, some adds⟩] lines =
       .ok (lines.take (first - 1) ++ adds ++ lines.drop stmtEnd) := by
   rw [line_range_exact_partial lines first stmtEnd h1 h2 h3 hD]
   exact applyChange_range lines first stmtEnd adds h1 h2 h3
+
+/-! ## Line 1 has no previous line (since 0cba813) -/
+
+/-- A diagnostic on line 1 is judged by file-level and trailing comments only. -/
+theorem line_one_ignores_last_line (pl : List Line) (d : Diag) (h : d.line = 1) :
+    suppressed pl d = (fileLevel pl d.code || trailingMatch (lineAt pl 1) (some d.code)) := by
+  unfold suppressed prevLineOf
+  rw [h]
+  have : ownLineMatch [] (some d.code) = false := by
+    unfold ownLineMatch
+    have h1 : (Pya.C11.strip [] == Pya.C11.IC) = false := by decide
+    have h2 : (Pya.C11.strip [] == codedIC d.code) = false := by
+      rw [codedIC_cons]; rfl
+    simp [h1, h2]
+  simp [this]
+
+/-- **Regression witness (C11's repaired `lineOneWrap`).** Before 0cba813 the "previous line" of line 1 was
+the last line of the file. -/
+theorem old_lineOneWrap_witness :
+    oldPrevLineOf ["w: int = 's'".toList, "# static analysis: ignore".toList] 1 = "# static analysis: ignore".toList ∧
+    prevLineOf ["w: int = 's'".toList, "# static analysis: ignore".toList] 1 = [] := by decide
 
 /-! ## Non-vacuity: the hypotheses are met by non-trivial inputs -/
 
@@ -356,7 +409,7 @@ def exState : St :=
             { code := "undefined_attribute", line := 8, col := 11 }, { code := "undefined_attribute", line := 8, col := 11 }] }
 
 example : AddIgnoresOK exState = true := by decide
-example : NoExtraSep exState.lines = true ∧ InRange exState.lines exState.raw = true := by decide
+example : InRange exState.lines exState.raw = true := by decide
 -- three rounds, three comments, nothing left
 example : (iterate 3 exState).diags = [] ∧ (iterate 3 exState).lines.length = 11 ∧
     (iterate 2 exState).diags.length = 2 := by decide
@@ -364,7 +417,7 @@ example : (iterate 3 exState).lines = specFinal exState := by decide
 example : ChangeWF exState.lines [6, 7] = true ∧ ChangeWF exState.lines [7, 6] = true := by decide
 example : inHeader exState.lines 5 = false ∧ inHeader exState.lines 1 = true := by decide
 -- a bracketed multi-line statement whose range is right; the lexer classes on their witnesses
-example : D16_stmtRange exState.lines 6 7 = false ∧ lineRange exState.lines 6 7 = [6, 7] := by decide
+example : D16_stmtRangeOverrun exState.lines 6 7 = false ∧ lineRange exState.lines 6 7 = [6, 7] := by decide
 example : D16_insideString ["s = f'''a".toList, "{undefined_x}".toList, "b'''".toList]
     [{ code := "undefined_name", line := 2 }] = true := by decide
 example : D16_afterBackslash ["x = 1 + \\".toList, "    undefined_x".toList]
